@@ -111,10 +111,23 @@ pub fn generate<W: Write>(c: &mut Cases<W>, rng: &mut Rng, thorough: bool) {
         // path 1: stream
         let mf = LoggingConcat { calls: RefCell::new(Vec::new()), fail_at, sort: false };
         let res = catch(|| -> Result<Vec<(Vec<u8>, Vec<u8>)>, (Vec<(Vec<u8>, Vec<u8>)>, String)> {
-            let mut b = Merger::builder(&mf);
-            for f in &files {
-                b.push(Reader::new(Cursor::new(&f[..])).unwrap().into_cursor().unwrap());
-            }
+            // the three equivalent ways of handing the sources to the builder, in turn
+            let cursors = || files.iter().map(|f| Reader::new(Cursor::new(&f[..])).unwrap().into_cursor().unwrap());
+            let b = match files.len() % 3 {
+                0 => {
+                    let mut b = Merger::builder(&mf);
+                    for cur in cursors() {
+                        b.push(cur);
+                    }
+                    b
+                }
+                1 => cursors().fold(Merger::builder(&mf), |b, cur| b.add(cur)),
+                _ => {
+                    let mut b = Merger::builder(&mf);
+                    b.extend(cursors());
+                    b
+                }
+            };
             let mut out = Vec::new();
             let mut it = match b.build().into_stream_merger_iter() {
                 Ok(it) => it,
@@ -148,8 +161,12 @@ pub fn generate<W: Write>(c: &mut Cases<W>, rng: &mut Rng, thorough: bool) {
         let mf2 = LoggingConcat { calls: RefCell::new(Vec::new()), fail_at, sort: false };
         let wres = catch(|| -> Result<Vec<u8>, String> {
             let mut b = Merger::builder(&mf2);
-            for f in &files {
-                b.push(Reader::new(Cursor::new(&f[..])).unwrap().into_cursor().unwrap());
+            if files.len() % 2 == 0 {
+                b.extend(files.iter().map(|f| Reader::new(Cursor::new(&f[..])).unwrap().into_cursor().unwrap()));
+            } else {
+                for f in &files {
+                    b.push(Reader::new(Cursor::new(&f[..])).unwrap().into_cursor().unwrap());
+                }
             }
             let mut w = Writer::builder().compression_type(CompressionType::None).memory();
             b.build().write_into_stream_writer(&mut w).map_err(|e| err_class(&e))?;
